@@ -18,7 +18,7 @@ pub fn def() -> PropDef {
     PropDef {
         info: PropInfo {
             id: "C10",
-            rule: "histories: new(None | program) followed by 1-30 operations over {set_program(valid | default-invalid | valid-only-under-another-verifier, with new offsets for the fixed-metadata VM), set_verifier(reference-equivalent | accept-all | reject-all | custom 'first immediate must be even'), register_helper, set_stack_usage_calculator, jit_compile, cranelift_compile, execute, execute_jit, execute_cranelift with one of three packets} on each of the four VM kinds; programs come from a pool of tiny well-defined programs returning distinct values (constants, helper results, a packet byte, the frame size seen by a local function, the packet length through the fixed VM's offsets). Oracle: abstract VM state machine (loaded program, verifier in force, helpers, what each compiler compiled and under which helpers / calculator, offsets); after EVERY step Ok/Err and the value are compared with the model; after a successful reload compiled code may only be 'not compiled' (Err) or the NEW program's value; a failing set_program / set_verifier must leave every later observation unchanged. Non-trivial = history with a reload after a compile, a failed load on a configured VM, or >= 2 executions; distinct by hash of the history.",
+            rule: "histories: new(None | program) followed by 1-30 operations over {set_program(valid | default-invalid | valid-only-under-another-verifier, with new offsets for the fixed-metadata VM), set_verifier(reference-equivalent | accept-all | reject-all | custom 'first immediate must be even'), register_helper, set_stack_usage_calculator, jit_compile, cranelift_compile, execute, execute_jit, execute_cranelift with one of three packets} on each of the four VM kinds; programs come from a pool of tiny well-defined programs returning distinct values (constants, helper results, a packet byte, the frame size seen by a local function and by a function nested two calls deep (under a stack-usage calculator that depends on its data, on the program and on the pc), the packet length through the fixed VM's offsets). Oracle: abstract VM state machine (loaded program, verifier in force, helpers, what each compiler compiled and under which helpers / calculator, offsets); after EVERY step Ok/Err and the value are compared with the model; after a successful reload compiled code may only be 'not compiled' (Err) or the NEW program's value; a failing set_program / set_verifier must leave every later observation unchanged. Non-trivial = history with a reload after a compile, a failed load on a configured VM, or >= 2 executions; distinct by hash of the history.",
             assumptions: &["the crate's default verifier is not exported: the 'default' verifier re-installed by set_verifier is the harness's reference verifier (equivalent by C06)", "compilation of programs that the default verifier would reject (loaded under accept-all) is not exercised with Cranelift", "helper ids are always bound to the same function within one history (re-binding an id after a JIT compilation is documented to be unsupported)"],
         },
         run,
@@ -35,6 +35,8 @@ pub enum PKind {
     Helper(u32),
     PktByte,
     Frame,
+    /// main -> f -> g, g returns the frame size of f (nested local calls)
+    Nest,
     FixedLen(u8),
     /// rejected by the default verifier (trailing instruction after exit) but harmless to run
     Invalid,
@@ -62,6 +64,16 @@ pub fn pool() -> Vec<(PKind, Vec<u8>)> {
         (
             PKind::Frame,
             asm(&[mov(0, 2), Insn::new(alu_opc(true, ALU_MOV, true), 5, 10, 0, 0), Insn::new(CALL, 0, 1, 0, 1), exit, Insn::new(alu_opc(true, ALU_MOV, true), 0, 5, 0, 0), Insn::new(alu_opc(true, ALU_SUB, true), 0, 10, 0, 0), exit]),
+        ),
+        (
+            PKind::Nest,
+            asm(&[mov(0, 2), Insn::new(CALL, 0, 1, 0, 1), exit, Insn::new(alu_opc(true, ALU_MOV, true), 6, 10, 0, 0), Insn::new(CALL, 0, 1, 0, 1), exit, Insn::new(alu_opc(true, ALU_MOV, true), 0, 6, 0, 0), Insn::new(alu_opc(true, ALU_SUB, true), 0, 10, 0, 0), exit]),
+        ),
+        (
+            // same functions at the same positions, one more (dead) instruction: a calculator that
+            // looks at the program gives other frame sizes
+            PKind::Nest,
+            asm(&[mov(0, 4), Insn::new(CALL, 0, 1, 0, 1), exit, Insn::new(alu_opc(true, ALU_MOV, true), 6, 10, 0, 0), Insn::new(CALL, 0, 1, 0, 1), exit, Insn::new(alu_opc(true, ALU_MOV, true), 0, 6, 0, 0), Insn::new(alu_opc(true, ALU_SUB, true), 0, 10, 0, 0), exit, exit]),
         ),
         (PKind::Invalid, asm(&[mov(0, 44), exit, mov(0, 45)])),
         (PKind::Invalid, asm(&[mov(0, 55), exit, mov(0, 46)])),
@@ -193,7 +205,7 @@ fn pick_prog(pool: &[(PKind, Vec<u8>)], kind: u8, sel: u8) -> usize {
 }
 
 const PKTS: [&[u8]; 3] = [&[0x10, 0x20, 0x30], &[0x41, 0x42, 0x43, 0x44, 0x45, 0x46, 0x47, 0x48, 0x49], &[0x7f; 40]];
-const CALCS: [u16; 3] = [64, 8, 200];
+const CALCS: [u16; 3] = [64, 8, 160];
 
 #[repr(C)]
 #[derive(Clone, Copy)]
@@ -229,12 +241,17 @@ impl Mem10 {
     }
 }
 
-fn calc_fn(_prog: &[u8], _pc: usize, data: &mut dyn std::any::Any) -> u16 {
+/// The stack-usage calculator of the histories depends on its data, on the program and on the pc.
+fn frame_formula(base: u16, prog_len: usize, pc: usize) -> u16 {
+    base + 8 * ((prog_len / 8) % 4) as u16 + 8 * (pc % 3) as u16
+}
+
+fn calc_fn(prog: &[u8], pc: usize, data: &mut dyn std::any::Any) -> u16 {
     let inner: &dyn std::any::Any = match data.downcast_ref::<Box<dyn std::any::Any>>() {
         Some(b) => b.as_ref(),
         None => data,
     };
-    *inner.downcast_ref::<u16>().expect("calc data")
+    frame_formula(*inner.downcast_ref::<u16>().expect("calc data"), prog.len(), pc)
 }
 
 const ENGINES: [Engine; 3] = [Engine::Interp, Engine::Jit, Engine::Cranelift];
@@ -357,7 +374,8 @@ fn expected_value(pool: &[(PKind, Vec<u8>)], kind: u8, p: usize, helpers: &[u32]
         case.mbuff = vec![0; 32];
     }
     case.helpers = helpers.iter().map(|id| (*id, helper_pool(*id))).collect();
-    case.calc = calc.map(|c| (vec![], c));
+    let n = pool[p].1.len();
+    case.calc = calc.map(|base| ((0..n / 8).map(|pc| (pc, frame_formula(base, n, pc))).collect(), base));
     model_run(&case, pkt_addr, Quirks::default(), 10_000).out
 }
 
@@ -492,7 +510,7 @@ pub fn check(mem: &Mem10, h: &History) -> (Verdict, bool) {
                         }
                         Some(p) => {
                             let calls_missing = matches!(pool[p].0, PKind::Helper(id) if !st.helpers.contains(&id));
-                            let local = pool[p].0 == PKind::Frame;
+                            let local = matches!(pool[p].0, PKind::Frame | PKind::Nest);
                             let invalid = pool[p].0 == PKind::Invalid;
                             if invalid && !is_jit {
                                 // Cranelift on a default-invalid program: outside the property
